@@ -107,6 +107,10 @@ def groupbyLen : List (List Char) → List (Int × List (List Char))
     | (n, g) :: rest => if n == Int.ofNat a.length then (n, a :: g) :: rest else (Int.ofNat a.length, [a]) :: (n, g) :: rest
     | [] => [(Int.ofNat a.length, [a])]
 
+/-- `l[lo::step]` for constants `lo >= 0`, `step > 0` -/
+def sliceStep {α} (l : List α) (lo step : Nat) : List α :=
+  ((l.drop lo).zipIdx.filter fun p => p.2 % step == 0).map (·.1)
+
 /-- `functools.reduce(f, xs)` without initial value -/
 def reduce {α} (f : α → α → α) : List α → M α
   | [] => throw "TypeError"
